@@ -94,7 +94,7 @@ pub fn params_of(env: &Env, c: &Case) -> (ForgeParams, Attack) {
         0 => Attack::S0Truthful,
         1 => Attack::S1ExtraOods(2 + c.sp % 7),
         2 => Attack::S5Lie(c.sp % 4),
-        3 => Attack::S2FriDomain(c.sp % 3),
+        3 => Attack::S2FriDomain(c.sp % 6),
         4 => Attack::S4UnboundLayers,
         5 => Attack::S3ModularBlowup(c.sp),
         _ => Attack::S7UncommittedOpenings(c.sp),
@@ -139,6 +139,7 @@ pub fn check(env: &Env, c: &Case) -> Outcome {
         Attack::S0Truthful => "S0_truthful",
         Attack::S1ExtraOods(_) => "S1_extra_oods_values",
         Attack::S5Lie(_) => "S5_inconsistent_openings",
+        Attack::S2FriDomain(v) if (*v / 3) % 2 == 1 => "S2_all_heights_declared_for_larger_domain",
         Attack::S2FriDomain(_) => "S2_fri_domain_declared_larger",
         Attack::S4UnboundLayers => "S4_unbound_inner_layers",
         Attack::S3ModularBlowup(_) => "S3_modular_blowup",
@@ -202,7 +203,7 @@ pub fn check(env: &Env, c: &Case) -> Outcome {
 pub fn strategy() -> impl Strategy<Value = Case> {
     (
         (any::<u8>(), any::<u8>(), any::<u8>(), proptest::collection::vec(any::<u8>(), 1..8), any::<u8>(), any::<u8>(), any::<u8>(), any::<u64>()),
-        (prop_oneof![2 => Just(0u8), 2 => Just(1u8), 3 => Just(2u8), 1 => Just(3u8), 2 => Just(4u8), 1 => Just(5u8), 3 => Just(6u8)], any::<u8>(), prop_oneof![3 => Just(vec![]), 1 => proptest::collection::vec((any::<u16>(), any::<u8>(), any::<u8>()), 1..=2)]),
+        (prop_oneof![2 => Just(0u8), 2 => Just(1u8), 3 => Just(2u8), 2 => Just(3u8), 2 => Just(4u8), 1 => Just(5u8), 3 => Just(6u8)], any::<u8>(), prop_oneof![3 => Just(vec![]), 1 => proptest::collection::vec((any::<u16>(), any::<u8>(), any::<u8>()), 1..=2)]),
     )
         .prop_map(|((layout, dt, c, steps_sel, nvf, queries, pow, seed), (strategy, sp, noise))| Case { layout, dt, c, steps_sel, nvf, queries, pow, seed, strategy, sp, noise })
 }
@@ -229,4 +230,4 @@ pub fn replay(ctx: &Ctx, v: &Value) -> Result<Outcome, String> {
     Ok(check(&e, &c))
 }
 
-pub const RULE: &str = "proofs built by the harness's forging prover for a statement that is false by construction (PRF low-degree trace columns; the harness evaluates the composition identity on the true openings and only counts cases where it is false). Generated dimensions: layout (quick: recursive, recursive_with_poseidon, dex, small; thorough + starknet), trace size (layout minimum, +1), blow-up 1..3, FRI step list, last-layer bound, friendly-layer count (0, 3, mid, height, height+1, 100), 1..12 queries, PoW bits 20..21, and an attack strategy: S0 truthful openings; S1 2..8 extra out-of-domain values decoupling checked and opened composition values; S5 lies in 0..3 mask openings with one composition opening solved so the OODS check passes; S2 FRI declared (with padded trees and a full-interpolant last layer) for a domain larger than the evaluation domain; S3 blow-up exponent p-m taken modulo the field (evaluation domain smaller than the trace domain); S4 arbitrary inner-layer commitments with sibling leaves chosen adaptively after the queries; S7 FRI run honestly on an arbitrary low-degree polynomial and, after the queries, one decommitted cell per queried row of the original / interaction / composition table set to the value that makes the DEEP quotient agree (an opening that is not the committed one); S6 on top 0..2 noise edits of configuration numbers and vector lengths. Oracle: StarkProof::verify must not return Ok. Positive control (mandatory, per layout): the same skeleton with truthful openings must be accepted by stark_verify (decommitments + DEEP + FRI). Non-trivial = identity verified false; distinct by case hash";
+pub const RULE: &str = "proofs built by the harness's forging prover for a statement that is false by construction (PRF low-degree trace columns; the harness evaluates the composition identity on the true openings and only counts cases where it is false). Generated dimensions: layout (quick: recursive, recursive_with_poseidon, dex, small; thorough + starknet), trace size (layout minimum, +1), blow-up 1..3, FRI step list, last-layer bound, friendly-layer count (0, 3, mid, height, height+1, 100), 1..12 queries, PoW bits 20..21, and an attack strategy: S0 truthful openings; S1 2..8 extra out-of-domain values decoupling checked and opened composition values; S5 lies in 0..3 mask openings with one composition opening solved so the OODS check passes; S2 FRI declared (with padded trees and a full-interpolant last layer) for a domain larger than the evaluation domain, in one variant together with the trace and composition trees so that every declared height agrees; S3 blow-up exponent p-m taken modulo the field (evaluation domain smaller than the trace domain); S4 arbitrary inner-layer commitments with sibling leaves chosen adaptively after the queries; S7 FRI run honestly on an arbitrary low-degree polynomial and, after the queries, one decommitted cell per queried row of the original / interaction / composition table set to the value that makes the DEEP quotient agree (an opening that is not the committed one); S6 on top 0..2 noise edits of configuration numbers and vector lengths. Oracle: StarkProof::verify must not return Ok. Positive control (mandatory, per layout): the same skeleton with truthful openings must be accepted by stark_verify (decommitments + DEEP + FRI). Non-trivial = identity verified false; distinct by case hash";
